@@ -570,6 +570,60 @@ def export_vs_model(ctx, app, coll_path, case):
         ctx.disagree("the export's head holds components the model does not produce", case, head[:300], "template only")
 
 
+def stock_encoding_level(ctx):
+    """a storage encoding other than UTF-8 ([encoding] stock = iso-8859-1 / cp1252 / utf-16): objects whose characters that
+    encoding can represent come back unchanged through every path — single PUT, whole-collection PUT, GET, export, re-upload"""
+    rng = ctx.rng("stock")
+    words = ["Caf\u00e9 d\u00e9j\u00e0 vu", "Stra\u00dfe \u00fc\u00f6\u00e4", "\u00a1Ol\u00e9! \u00f1", "plain"]
+    for rnd in range(ctx.n(6, 120)):
+        stock = rng.choice(["iso-8859-1", "iso-8859-1", "cp1252", "utf-16", "utf-8"])
+        with App({"auth": {"type": "none"}, "encoding": {"stock": stock}}) as app:
+            ev = lambda uid, w: ["BEGIN:VEVENT", "UID:%s" % uid, "DTSTAMP:20240101T000000Z", "DTSTART:20240102T100000Z", "SUMMARY:%s" % w,   # noqa: E731
+                                 "LOCATION:%s" % w[::-1], "END:VEVENT"]
+            expected = {}
+            comps = []
+            for j in range(rng.randint(2, 3)):
+                w = rng.choice(words)
+                expected["/u/w/"] = expected.get("/u/w/", []) + [w]
+                comps += ev("w%d_%d" % (rnd, j), w)
+            whole = "\r\n".join(["BEGIN:VCALENDAR", "VERSION:2.0", "PRODID:x"] + comps + ["END:VCALENDAR"]) + "\r\n"
+            st_w, _, _ = app.request("PUT", "/u/w/", whole, login="u:pw", CONTENT_TYPE="text/calendar; charset=utf-8")
+            w1 = rng.choice(words)
+            app.request("MKCALENDAR", "/u/s/", login="u:pw")
+            single = "\r\n".join(["BEGIN:VCALENDAR", "VERSION:2.0", "PRODID:x"] + ev("s%d" % rnd, w1) + ["END:VCALENDAR"]) + "\r\n"
+            st_s, _, _ = app.request("PUT", "/u/s/one.ics", single, login="u:pw", CONTENT_TYPE="text/calendar; charset=utf-8")
+            cards = "".join("BEGIN:VCARD\r\nVERSION:3.0\r\nUID:c%d_%d\r\nFN:%s\r\nN:%s;;;;\r\nEND:VCARD\r\n" % (rnd, j, w, w) for j, w in enumerate(words[:2]))
+            st_c, _, _ = app.request("PUT", "/u/ab/", cards, login="u:pw", CONTENT_TYPE="text/vcard; charset=utf-8")
+            case = {"stock_encoding": stock, "statuses": {"whole calendar": st_w, "single": st_s, "whole address book": st_c}}
+            ctx.case("stock-encoding:%s" % stock, sample=case, key=["stock", rnd], nontrivial=stock != "utf-8")
+            for what, st_ in case["statuses"].items():
+                if st_ != 201:
+                    ctx.violation("%s upload of text the storage encoding can represent was answered %d" % (what, st_), case)
+            checks = [("/u/s/one.ics", [w1]), ("/u/s/", [w1]), ("/u/w/", expected["/u/w/"]), ("/u/ab/", words[:2])]
+            ms = parse_multistatus(app.request("PROPFIND", "/u/w/", login="u:pw", HTTP_DEPTH="1")[2])[1] if st_w == 201 else []
+            for h in ms:
+                if h.rstrip("/") != "/u/w":
+                    checks.append((h, None))
+            for path, ws in checks:
+                st, _, text = app.request("GET", path, login="u:pw")
+                if st != 200:
+                    ctx.violation("GET %s answers %d under stock encoding %s" % (path, st, stock), case)
+                    continue
+                vals = [l.split(":", 1)[1] for l in text.replace("\r\n ", "").split("\r\n") if l.startswith(("SUMMARY:", "FN:"))]
+                if ws is None:
+                    if not vals or any(v not in words for v in vals):
+                        ctx.violation("object %s of the whole upload is served with %r (stock encoding %s)" % (path, vals, stock), case, words, vals)
+                elif sorted(vals) != sorted(ws):
+                    ctx.violation("%s is served with %r, stored was %r (stock encoding %s)" % (path, vals, ws, stock), case, ws, vals)
+            # fixed point of the export
+            st, _, export = app.request("GET", "/u/w/", login="u:pw")
+            if st == 200 and st_w == 201:
+                app.request("PUT", "/u/w2/", export, login="u:pw", CONTENT_TYPE="text/calendar; charset=utf-8")
+                st2, _, export2 = app.request("GET", "/u/w2/", login="u:pw")
+                if st2 != 200 or export2 != export:
+                    ctx.violation("re-uploading the export gives another export under stock encoding %s" % stock, case)
+
+
 def witnesses(ctx):
     """the two unsafe shapes, on the running server: served content is not a fixed point"""
     shapes = {"F5": "DESCRIPTION:a" + " " * 150 + "b",
@@ -605,4 +659,5 @@ def run(ctx):
     object_level(ctx)
     collection_level(ctx)
     individual_export_level(ctx)
+    stock_encoding_level(ctx)
     witnesses(ctx)
